@@ -142,7 +142,8 @@ def _bfs_edges_rust(
             return Result(list(result["path"]), len(result["path"]) - 1, result["iterations"], 0)
         return Result(None, float("inf"), result["iterations"], 0, Status.INFEASIBLE)
 
-    return Result(list(result["visited_order"]), 0, result["iterations"], 0)
+    # Same canonical form as the Python implementation: the sorted list of reachable nodes
+    return Result(sorted(result["visited_order"]), 0, result["iterations"], 0)
 
 
 @rust_adapter("dfs_edges")
@@ -160,10 +161,12 @@ def _dfs_edges_rust(
 
     if target is not None:
         if result["target_reached"]:
-            return Result(list(result["path"]), len(result["path"]) - 1, result["iterations"], 0)
+            # A DFS path is a path, not a shortest one: FEASIBLE, like the Python implementation
+            return Result(list(result["path"]), len(result["path"]) - 1, result["iterations"], 0, Status.FEASIBLE)
         return Result(None, float("inf"), result["iterations"], 0, Status.INFEASIBLE)
 
-    return Result(list(result["visited_order"]), 0, result["iterations"], 0)
+    # Same canonical form as the Python implementation: the sorted list of reachable nodes
+    return Result(sorted(result["visited_order"]), 0, result["iterations"], 0)
 
 
 @rust_adapter("pagerank_edges")
